@@ -31,8 +31,8 @@ Proof.
     intros [= <-]. apply ident_eqb_eq in Ei. subst. reflexivity.
 Qed.
 
-Lemma update_locs id e' st d :
-  locs_ok st -> e_locs e' = id -> locs_ok {| entries := update id e' (entries st); disk := d |}.
+Lemma update_locs id e' st d m :
+  locs_ok st -> e_locs e' = id -> locs_ok {| entries := update id e' (entries st); disk := d; marks := m |}.
 Proof.
   intros H He id' e0. simpl. destruct (ident_eqb id' id) eqn:Ei.
   - apply ident_eqb_eq in Ei. subst id'. rewrite lookup_update_same. intros [= <-]. exact He.
@@ -69,7 +69,7 @@ Proof.
        if e_loaded e then Some st1
        else let '(e', r) := intake cfg ev FirstLoad [loc] e trusted NoFault in
             match r with
-            | Some _ => Some {| entries := update [loc] e' (entries st1); disk := persist cfg [loc] r (disk st1) |}
+            | Some _ => Some {| entries := update [loc] e' (entries st1); disk := persist cfg [loc] r (disk st1); marks := marks st1 |}
             | None => None
             end
      | _, _ => Some st1
@@ -154,10 +154,10 @@ Hypothesis D_adopt : forall cfg l sg chain, D cfg (l, sg) -> adopt_counts cfg sg
 
 Lemma intake_state_inv cfg ev p id e avail st :
   InvG D cfg st -> lookup id (entries st) = Some e ->
-  InvG D cfg {| entries := update id (fst (intake cfg ev p id e avail NoFault)) (entries st);
-                disk := persist cfg id (snd (intake cfg ev p id e avail NoFault)) (disk st) |}.
+  forall m, InvG D cfg {| entries := update id (fst (intake cfg ev p id e avail NoFault)) (entries st);
+                disk := persist cfg id (snd (intake cfg ev p id e avail NoFault)) (disk st); marks := m |}.
 Proof.
-  intros H El. pose proof (inv_lookup D _ _ _ _ H El) as Hok.
+  intros H El m. pose proof (inv_lookup D _ _ _ _ H El) as Hok.
   pose proof (intake_entry_ok D D_accepts cfg ev p id e avail NoFault Hok) as Hi.
   pose proof (intake_result_ok D D_accepts cfg ev p id e avail NoFault) as Hr.
   destruct (intake cfg ev p id e avail NoFault) as [e' r]. simpl in *.
@@ -178,7 +178,7 @@ Proof.
        if e_loaded e then Some st1
        else let '(e', r) := intake cfg ev FirstLoad [loc] e trusted NoFault in
             match r with
-            | Some _ => Some {| entries := update [loc] e' (entries st1); disk := persist cfg [loc] r (disk st1) |}
+            | Some _ => Some {| entries := update [loc] e' (entries st1); disk := persist cfg [loc] r (disk st1); marks := marks st1 |}
             | None => None
             end
      | _, _ => Some st1
@@ -186,13 +186,13 @@ Proof.
   { intros st2. destruct (r_fetch cfg); [|intros [= <-]; exact H1].
     destruct (lookup [loc] (entries st1)) as [e|] eqn:E1; [|intros [= <-]; exact H1].
     destruct (e_loaded e); [intros [= <-]; exact H1|].
-    pose proof (intake_state_inv cfg ev FirstLoad [loc] e trusted st1 H1 E1) as Hi.
+    pose proof (intake_state_inv cfg ev FirstLoad [loc] e trusted st1 H1 E1 (marks st1)) as Hi.
     destruct (intake cfg ev FirstLoad [loc] e trusted NoFault) as [e' [v|]]; [|discriminate].
     intros [= <-]. exact Hi. }
   destruct (match r_fetch cfg, lookup [loc] (entries st1) with | Active, Some e => _ | _, _ => Some st1 end) as [st2|] eqn:E2; [|discriminate].
   specialize (H2 st2 eq_refl).
   destruct (lookup [loc] (entries st2)) as [e|] eqn:Ee; [|discriminate].
-  pose proof (intake_state_inv cfg ev Refresh [loc] e trusted st2 H2 Ee) as Hi.
+  pose proof (intake_state_inv cfg ev Refresh [loc] e trusted st2 H2 Ee (remove_id [loc] (marks st2))) as Hi.
   destruct (intake cfg ev Refresh [loc] e trusted NoFault) as [e' [v|]]; [|discriminate].
   intros [= <-]. exact Hi.
 Qed.
